@@ -417,6 +417,13 @@ func (s *Sim) Client(name string, opts ...kgo.Opt) *kgo.Client {
 	return cl
 }
 
+// Adopt registers a client created elsewhere for automatic closing.
+func (s *Sim) Adopt(name string, cl *kgo.Client) {
+	s.mu.Lock()
+	s.clients[name] = cl
+	s.mu.Unlock()
+}
+
 // Forget removes a client from the auto-close list (the scenario closed it).
 func (s *Sim) Forget(name string) {
 	s.mu.Lock()
